@@ -204,7 +204,10 @@ func (e editor) node(from *Selection, to *Selection, m meta.HasDataDefinitions, 
 		if toChild, err = to.selekt(&toRequest); err != nil {
 			return err
 		}
-		defer toChild.Release()
+		if toChild != nil {
+			// nil when the target node declines to create the child: reported below
+			defer toChild.Release()
+		}
 		newChild = true
 	case editUpsert:
 
